@@ -368,9 +368,9 @@ def reclaim(kind, path, na, ra, first, slices):
 '''
 
 RECLAIMF = r'''
-def reclaim___KIND_____PATH__(na: int, ra: int, first: int, k1: int, k2: int) -> bool:
+def reclaim___KIND_____PATH_____F__(na: int, ra: int, first: int, k1: int, k2: int) -> bool:
     """
-    pre: NALO <= na <= NAHI and 0 <= ra <= 1 and 0 <= first <= 1 and 0 <= k1 <= RKMAX and 0 <= k2 <= RKMAX
+    pre: NALO <= na <= NAHI and 0 <= ra <= 1 and __F__ <= first <= __F__ and 0 <= k1 <= RKMAX and 0 <= k2 <= RKMAX
     post: _
     """
     na = pick(na, NALO, NAHI); ra = pick(ra, 0, 1)
@@ -447,11 +447,12 @@ def run(ctx: Ctx) -> None:
     for kind in (0, 1):
         for path in range(5):
             lo, hi = (nalo, nahi) if path < 3 or thorough else (R, R)       # quick, taken-away paths: the owner's in-flight request is its start (-> RUNNING)
-            rsrc += RECLAIMF.replace("__KIND__", str(kind)).replace("__PATH__", str(path)).replace("RKMAX", str(rk)).replace("NALO", str(lo)).replace("NAHI", str(hi))
-            rconds.append(Cond(f"reclaim_{kind}_{path}", "confirm", 2400, keyfn=_key_from_replay))
+            for fst in (0, 1):
+                rsrc += RECLAIMF.replace("__KIND__", str(kind)).replace("__PATH__", str(path)).replace("__F__", str(fst)).replace("RKMAX", str(rk)).replace("NALO", str(lo)).replace("NAHI", str(hi))
+                rconds.append(Cond(f"reclaim_{kind}_{path}_{fst}", "confirm", 2400, keyfn=_key_from_replay))
     ctx.ch_batch("c02reclaim", rsrc, rconds)
-    csrc = base + RECLAIM + RECLAIM_CANARY + RECLAIMF.replace("__KIND__", "0").replace("__PATH__", "0").replace("RKMAX", str(rk)).replace("NALO", str(P)).replace("NAHI", str(P))
-    ctx.ch_batch("c02reclaim_canary", csrc, [Cond("reclaim_0_0", "refute", 900)])
+    csrc = base + RECLAIM + RECLAIM_CANARY + RECLAIMF.replace("__KIND__", "0").replace("__PATH__", "0").replace("__F__", "0").replace("RKMAX", str(rk)).replace("NALO", str(P)).replace("NAHI", str(P))
+    ctx.ch_batch("c02reclaim_canary", csrc, [Cond("reclaim_0_0_0", "refute", 900)])
     ctx.bounds["reclaim"] = (f"actor A: {'any one request (14 statuses' if thorough else 'a claim (-> PENDING'}, by r1 or r2); actor B (r2): claim, release through RETRY / REROUTED / KILLED+REROUTED, claim again - or, from PENDING owned by r1, recovery + re-claim by r2 against r1's in-flight start; "
                              f"first actor, 2 preemptions with slices 0..{rk}; both backends; oracle = linearisability against the status table")
     ctx.bounds["body"] = "two workers holding the same invocation object (one the legitimate owner, one stale) run the real DistributedInvocation.run twins, 1 preemption (thorough: 2) with slices 0..60, both backends: the body executes at most once"
